@@ -195,6 +195,8 @@ func (i *interpreter) storeAt(T types.Type, addr value, v value) {
 			here := i.curFnName()
 			i.sched.visible(i, "store "+name, a)
 			i.sched.accessCheckAt(i, a, true, name, here)
+		} else if a != nil {
+			i.sched.heapStore(i, a)
 		}
 	}
 	if a == nil {
@@ -237,6 +239,8 @@ func (i *interpreter) loadAt(T types.Type, addr value) value {
 				here := i.curFnName()
 				i.sched.visible(i, "load "+name, a)
 				i.sched.accessCheckAt(i, a, false, name, here)
+			} else {
+				i.sched.heapLoad(i, a)
 			}
 		}
 		return load(T, a)
